@@ -109,7 +109,7 @@ package cmd
 //       of its configs list, with that entry as its config.
 //@ func (*RootApp).Run props=C10,C09,C07
 //@   safety fs-frame
-//@   maprange mockFileToInterfaces: order_assumed each iteration renders and writes the one file named by its key (site#write: WriteFile only at pathlib.NewPath(outFilePath)); the state the iterations share is the package configuration returned by GetPackageConfig, on which ParseTemplates is re-run per file with the same data (idempotent once expanded), and the remote-template cache (a memo of downloads). Neither is established by the footprint rule. This argument is not checked.
+//@   maprange mockFileToInterfaces: order_except ParseTemplates, Generate, WriteFile: each iteration renders and writes the one file named by its key (site#write: WriteFile only at pathlib.NewPath(outFilePath)) with a generator built in the iteration; what the footprint rule cannot establish is that these three calls leave the state they share alone: the package configuration returned by GetPackageConfig, on which ParseTemplates is re-run per file with the same data (idempotent once expanded), and the remote-template cache handed to NewTemplateGenerator (a memo of downloads). Everything else the loop body does is checked.
 //@   requires Ghost() && allPtrFieldsSet(r.Config.Config) && depth(r.Config.TemplateData) == 0 && depth(r.Config.Anchors) == 0
 //@   site#dir MkdirAll: $recv == pathlib.NewPath(outFilePath).Parent() && lastErr("Generate") == nil
 //@   site#write WriteFile: $recv == pathlib.NewPath(outFilePath) && $0 == templateBytes && lastErr("Generate") == nil && lastErr("MkdirAll") == nil && lastErr("Exists") == nil
